@@ -540,3 +540,56 @@ def oracle_partials(c, o, srcnan):
                     return f'from_partials: rdm {rid} pair ({a},{b}) is {it[1][k]}, expected {want}'
                 k += 1
     return df_check(st, 'from_partials')
+
+
+def support(rng, tier):
+    """selections by numeric descriptors whose distinct values are close relative to their magnitude (subject ids >= 100000, time
+    stamps) or closer than 1e-8 near zero: exactly the requested RDMs / conditions, each pair value still the one of its own pair
+    (seeded change C10-m4: tolerant comparison in bool_index)"""
+    import rsatoolbox
+    res = []
+    rs = np.random.RandomState(10 + rng.randrange(1000))
+    for rep in range(4 if tier == 'quick' else 40):
+        n_rdm, n = int(rs.randint(3, 6)), int(rs.randint(4, 7))
+        subj = (100000 + np.arange(n_rdm) + 1000 * rs.randint(0, 3)).astype(int)
+        stamp = 1.6e9 + 60.0 * np.arange(n_rdm)
+        tiny = 1e-9 * np.arange(n)
+        cid = (250000 + np.arange(n)).astype(int)
+        mats = np.zeros((n_rdm, n, n))
+        for k in range(n_rdm):
+            for i in range(n):
+                for j in range(i + 1, n):
+                    mats[k, i, j] = mats[k, j, i] = 10000 * (k + 1) + 100 * (i + 1) + (j + 1)
+        r = rsatoolbox.rdm.RDMs(mats, rdm_descriptors={'subj': subj, 'stamp': stamp, 'k': list(range(n_rdm))},
+                                pattern_descriptors={'cid': cid, 'tiny': tiny, 'i': list(range(n))})
+
+        def ok(o):
+            ks, iis = [int(x) for x in o.rdm_descriptors['k']], [int(x) for x in o.pattern_descriptors['i']]
+            want = np.array([[10000 * (k + 1) + 100 * (min(a, b) + 1) + (max(a, b) + 1) for ai, a in enumerate(iis)
+                              for b in iis[ai + 1:]] for k in ks], float).reshape(len(ks), -1)
+            return ks, iis, o.get_vectors().shape == want.shape and np.array_equal(o.get_vectors(), want)
+        k = int(rs.randint(0, n_rdm))
+        two = sorted(rs.choice(n, 2, replace=False).tolist())
+        three = sorted(rs.choice(n, 3, replace=False).tolist())
+        calls = [
+            ('subset_subj_scalar', lambda: r.subset('subj', int(subj[k])), [k], list(range(n))),
+            ('subset_subj_array', lambda: r.subset('subj', np.array([subj[k]])), [k], list(range(n))),
+            ('subset_stamp_scalar', lambda: r.subset('stamp', float(stamp[k])), [k], list(range(n))),
+            ('subsample_subj_list', lambda: r.subsample('subj', [int(subj[k]), int(subj[k])]), [k, k], list(range(n))),
+            ('subset_pattern_cid_list', lambda: r.subset_pattern('cid', [int(cid[i]) for i in two]), list(range(n_rdm)), two),
+            ('subset_pattern_cid_tuple', lambda: r.subset_pattern('cid', tuple(int(cid[i]) for i in three)), list(range(n_rdm)), three),
+            ('subset_pattern_tiny_array', lambda: r.subset_pattern('tiny', np.array([tiny[i] for i in two])), list(range(n_rdm)), two),
+            ('subsample_pattern_cid_list', lambda: r.subsample_pattern('cid', [int(cid[i]) for i in two]), list(range(n_rdm)), two),
+        ]
+        for name, f, want_k, want_i in calls:
+            try:
+                o = f()
+                ks, iis, vals_ok = ok(o)
+                good = ks == want_k and iis == want_i and vals_ok
+                info = dict(call=name, subj=subj.tolist(), stamp=stamp.tolist(), cid=cid.tolist(), tiny=tiny.tolist(),
+                            returned_rdms=ks, expected_rdms=want_k, returned_conditions=iis, expected_conditions=want_i,
+                            values_belong_to_their_pairs=bool(vals_ok))
+            except Exception as e:      # a legal selection must not be rejected
+                good, info = False, dict(call=name, subj=subj.tolist(), cid=cid.tolist(), raised=f'{type(e).__name__}: {e}')
+            res.append((f'close_numeric_descriptor_{name}_{rep}', bool(good), info))
+    return res
